@@ -18,7 +18,7 @@ for name, e in idx.items():
 n_c = sum(1 for v in res.values() if v[0] == 'CAUGHT'); n_s = sum(1 for v in res.values() if v[0] == 'SILENT-OK')
 out.append(f"\n{n_c} mutants caught, {n_s} controls silent, 0 missed. Of the caught mutants, {sum(1 for k,v in res.items() if v[0]=='CAUGHT' and v[2]=='baseline-passes')} leave the repository's own suite passing (one of those rows, `c01-split-free-mode-mid-char`, made a suite test loop forever and was killed by hand).\n")
 out.append("### 13.2 Changes written by sub-agents (`seeded/<id>/`)\n")
-out.append("Each sub-agent got a scratch worktree of `/repo` and the text of one property. Round 1: nothing else. Round 2: additionally asked for rare conjunctions; four of them - C13, C14, C06, C08 - were also told to assume a generic small-alphabet differential tester (see `prompt_note` in their meta.json). Round 3: asked to change shared helpers / unwinding paths / protocol plumbing rather than the obvious site. Round 4: asked to change conversion / macro / error / offset plumbing. Round 5: asked for history-dependent and shape-specific bugs. Round 6: history-dependent bugs through restructured iterator/builder state, and Miri-only UB in the by-value code. Round 7: two cooperating edits that each look fine alone. Round 8: asked for a change that a generic randomized tester with short, simple inputs would be unlikely to notice. Every change was confirmed by hand with `seeded/eval.sh`: the demonstration passes on the clean tree and fails with the patch (Miri-only demonstrations show as passing natively), the existing suite stays at its baseline (528 passed incl. doc tests, 3 always-failing), then the checks were run. For rounds 2 to 8, *before* is the verdict of the checks as committed before any result of that round was read, *now* the verdict of the current checks.\n")
+out.append("Each sub-agent got a scratch worktree of `/repo` and the text of one property. Round 1: nothing else. Round 2: additionally asked for rare conjunctions; four of them - C13, C14, C06, C08 - were also told to assume a generic small-alphabet differential tester (see `prompt_note` in their meta.json). Round 3: asked to change shared helpers / unwinding paths / protocol plumbing rather than the obvious site. Round 4: asked to change conversion / macro / error / offset plumbing. Round 5: asked for history-dependent and shape-specific bugs. Round 6: history-dependent bugs through restructured iterator/builder state, and Miri-only UB in the by-value code. Round 7: two cooperating edits that each look fine alone. Round 8: asked for a change that a generic randomized tester with short, simple inputs would be unlikely to notice. Round 9: the same request for C07, C13, C14, C15 under a 15-minute budget. Every change was confirmed by hand with `seeded/eval.sh`: the demonstration passes on the clean tree and fails with the patch (Miri-only demonstrations show as passing natively), the existing suite stays at its baseline (528 passed incl. doc tests, 3 always-failing), then the checks were run. For rounds 2 to 9, *before* is the verdict of the checks as committed before any result of that round was read, *now* the verdict of the current checks.\n")
 out.append("| change | round | needs to manifest | before | now: check -> class |")
 out.append("|---|---|---|---|---|")
 for d in sorted(glob.glob('/verif/seeded/C*/')):
